@@ -417,6 +417,33 @@ FamRestat(K, CH) ==
   UNION { {Scn(gr, <<Build(Roots(gr), 2, 1), [op |-> "touch", f |-> (gr.stmts[1].ex \o gr.stmts[1].im)[1]], c, Build(Roots(gr), 2, 1), Build(Roots(gr), 2, 1)>>) :
               c \in Pick(CH, ChangesET(gr))} : gr \in RestatGraphs(K) }
 
+(***************************************************************************)
+(* C18: cleaning.  After a build (and optional deletions) a clean of every  *)
+(* scope, with and without -g / -n; cleandead after a manifest variant that *)
+(* drops or renames a statement; then builds that must re-create the files. *)
+(***************************************************************************)
+CleanOp(mode, args, gf, n) == [op |-> "clean", mode |-> mode, args |-> args, g |-> gf, n |-> n]
+RuleName(i) == "r" \o ToString(i)
+CleanOps(gr) ==
+  {CleanOp("all", <<>>, gf, n) : gf \in BOOLEAN, n \in BOOLEAN}
+  \cup {CleanOp("targets", <<t>>, FALSE, n) : t \in AllOutsG(gr), n \in BOOLEAN}
+  \cup {CleanOp("targets", SetToSeq(AllOutsG(gr)), FALSE, FALSE)}
+  \cup {CleanOp("rules", <<RuleName(i)>>, FALSE, n) : i \in Cmds(gr), n \in BOOLEAN}
+DropStmt(gr, k) == [i \in 1..(Len(gr.stmts) - 1) |-> LET s == gr.stmts[IF i < k THEN i ELSE i + 1] IN [s EXCEPT !.id = i]]
+\* variants of the manifest: statement k removed (the remaining ones renumbered) if nothing consumes its outputs
+Droppable(gr) == {k \in DOMAIN gr.stmts : (\A i \in DOMAIN gr.stmts : gr.stmts[i].dd = "") /\ \A o \in ToSet(gr.stmts[k].outs) \cup ToSet(gr.stmts[k].iouts) : o \notin Consumed(gr)}
+CleanGraphs(K) ==
+  UNION {GraphsS(sh, {"plain", "restat", "gen", "two", "iout", "rsp", "depfile", "gcc"}, K) : sh \in {"chain2", "chain3", "fanin", "fanout", "mixed", "alias", "group", "indep", "valid", "oonly"}}
+  \cup DynGraphs
+FamClean(K, CH) ==
+  UNION { {Scn(gr, <<Build(Roots(gr), 2, 1), c, Build(Roots(gr), 2, 1), Build(Roots(gr), 2, 1)>>) : c \in Pick(CH, CleanOps(gr))}
+          \cup {Scn(gr, <<Build(Roots(gr), 2, 1), d, c, Build(Roots(gr), 2, 1)>>) :
+                  d \in Pick(2, {x \in Changes(gr) : x.op = "del"}), c \in Pick(CH, CleanOps(gr))}
+          \cup {Scn(gr, <<c, Build(Roots(gr), 2, 1)>>) : c \in Pick(2, CleanOps(gr))}
+          \cup {Scn(gr, <<Build(Roots(gr), 2, 1), [op |-> "setstmts", stmts |-> DropStmt(gr, k)], CleanOp("dead", <<>>, FALSE, n),
+                           Build(<<>>, 2, 1)>>) : k \in Droppable(gr), n \in BOOLEAN} :
+          gr \in CleanGraphs(K) }
+
 ParK == IF "K" \in DOMAIN IOEnv THEN atoi(IOEnv.K) ELSE 3
 ParCH == IF "CH" \in DOMAIN IOEnv THEN atoi(IOEnv.CH) ELSE 3
 
@@ -427,6 +454,7 @@ Family(name) ==
     [] name = "sched" -> FamSched(ParK, ParCH)
     [] name = "fail" -> FamFail(ParK, ParCH)
     [] name = "rand" -> FamRand(ParK, ParCH)
+    [] name = "clean" -> FamClean(ParK, ParCH)
     [] name = "restat" -> FamRestat(ParK, ParCH)
     [] name = "dry" -> FamDry(ParK, ParCH)
     [] name = "editrun" -> FamEditRun(ParK, ParCH)
